@@ -1,6 +1,7 @@
 package rules
 
 import (
+	"go/ast"
 	"go/token"
 	"go/types"
 
@@ -162,8 +163,152 @@ func c26Route(c *core.Ctx, root *core.FuncInfo) {
 		if direct[t] {
 			continue
 		}
-		if path, again := (core.PathQuery{F: f, From: t, FromAfter: true, Target: core.PointSet(t), Avoid: isLookup, AvoidEdge: notOkEdges}).Find(); again {
-			c.Undecided("helper attempt repeated", "T5 AtMostOnce", posOf(t), "the helper that tries patterns is called repeatedly for one request; which match wins is not decided: "+f.DescribePath(path))
+		path, again := (core.PathQuery{F: f, From: t, FromAfter: true, Target: core.PointSet(t), Avoid: isLookup, AvoidEdge: notOkEdges}).Find()
+		if !again {
+			continue
+		}
+		// the helper makes one attempt per call and is called for one pattern after the other: the first
+		// match wins when the helper reports the match to its caller (see c26MatchReport) and, from the call,
+		// another attempt is reached only over a "did not match" edge of that report (or for the next,
+		// shortened request, or after the match was recorded)
+		noMatch := c26NoMatchFact(f, t, isAttempt)
+		if noMatch == nil {
+			c.Undecided("helper attempt repeated", "T5 AtMostOnce", posOf(t), "the helper that tries patterns is called repeatedly for one request and does not report through a result whether the pattern matched; which match wins is not decided: "+f.DescribePath(path))
+			continue
+		}
+		stop := append([]core.Point{}, lookups...)
+		for _, a := range assignsToVar(f, okVar) {
+			if !isLookup(a.Pt) && a.RHS != nil && c26IsTrue(f, a.RHS) {
+				stop = append(stop, a.Pt)
+			}
+		}
+		noMatchEdges := f.GuardEdges(noMatch)
+		wit, found := (core.PathQuery{F: f, From: t, FromAfter: true, Target: core.PointSet(tries...), Avoid: core.PointSet(stop...), AvoidEdge: func(b *cfg.Block, s int) bool {
+			return noMatchEdges(b, s) || notOkEdges(b, s)
+		}}).Find()
+		c.Check(!found, short(f.Name)+"|first matching pattern wins", "T5 AtMostOnce", posOf(t), "after the helper reported a match, no other pattern is tried for the same request unless the match was recorded",
+			"after a pattern matched, a later pattern is still tried and can replace the match (the route then depends on the last, not the first matching pattern): "+f.DescribePath(wit))
+	}
+}
+
+// c26NoMatchFact: the call at point t of f enters a module function that makes exactly one pattern
+// attempt and reports its outcome through a result (c26MatchReport). Returned is the predicate of the
+// branch facts of f saying "this call did not match" — on the variable of f that receives the report
+// and has no other definition —, nil when there is no such report.
+func c26NoMatchFact(f *core.FuncInfo, t core.Point, isAttempt func(*core.CallSite) bool) func(core.Fact) bool {
+	for _, cs := range f.Calls() {
+		if cs.Pt != t || cs.InDefer || cs.InGo {
+			continue
+		}
+		fn, isFn := cs.Callee.(*types.Func)
+		if !isFn {
+			continue
+		}
+		h := f.P.FuncOf(fn)
+		if h == nil || h == f || h.Body == nil {
+			continue
+		}
+		own := h.CallsMatching(isAttempt)
+		if len(own) != 1 || len(h.SitesMay(isAttempt, 2)) != 1 {
+			continue
+		}
+		k, asErr := c26MatchReport(h, own[0])
+		if k < 0 {
+			continue
+		}
+		recv := c26ResultReceiver(f, cs.Call, k)
+		if recv == nil || len(assignsToVar(f, recv)) != 1 {
+			continue
+		}
+		for _, l := range allLits(f) {
+			if len(assignsToVar(l, recv)) > 0 {
+				return nil
+			}
+		}
+		if asErr {
+			return varNilFact(f, recv, false)
+		}
+		return func(ft core.Fact) bool {
+			cm, ok := core.NormCmp(ft)
+			return ok && cm.R == nil && cm.Op == token.NEQ && varOf(f, cm.L) == recv
 		}
 	}
+	return nil
+}
+
+// c26MatchReport: h makes the pattern attempt `try` (not in a loop) and tells its caller whether the
+// pattern matched: result k is, on every return that is feasible when the attempt's error is nil, the
+// constant true (or, asErr, a nil error), and on every return that is feasible when it is not nil, the
+// constant false (or the attempt's error / a newly made one). Decided on the two valuations of the atom
+// "error of the attempt == nil" over the feasible edges; k = -1 when no result does so.
+func c26MatchReport(h *core.FuncInfo, try *core.CallSite) (k int, asErr bool) {
+	ev := errVarOfCall(h, try.Call)
+	if ev == nil || len(assignsToVar(h, ev)) != 1 || h.CanReach(try.Pt, try.Pt) || h.Type.Results == nil {
+		return -1, false
+	}
+	for _, l := range allLits(h) {
+		if len(assignsToVar(l, ev)) > 0 {
+			return -1, false
+		}
+	}
+	n := 0
+	for _, fl := range h.Type.Results.List {
+		if len(fl.Names) == 0 {
+			n++
+		} else {
+			n += len(fl.Names)
+		}
+	}
+	matched := func(t c26Tri) func(ast.Expr) c26Tri {
+		return func(e ast.Expr) c26Tri {
+			b, ok := ast.Unparen(e).(*ast.BinaryExpr)
+			if !ok || (b.Op != token.EQL && b.Op != token.NEQ) {
+				return c26Unknown
+			}
+			l, r := b.X, b.Y
+			if core.IsNil(h.Info(), l) {
+				l, r = r, l
+			}
+			if !core.IsNil(h.Info(), r) || varOf(h, l) != ev {
+				return c26Unknown
+			}
+			if b.Op == token.NEQ {
+				return t.not()
+			}
+			return t
+		}
+	}
+	for k = 0; k < n; k++ {
+		for _, asErr = range []bool{false, true} {
+			ok, seen := true, 0
+			for _, t := range []c26Tri{c26True, c26False} {
+				atom := matched(t)
+				infeasible := c26Infeasible(h, atom)
+				for _, rp := range h.ReturnPoints() {
+					if _, reach := (core.PathQuery{F: h, From: h.Entry(), Target: core.PointSet(rp), AvoidEdge: infeasible}).Find(); !reach {
+						continue
+					}
+					seen++
+					r := rp.Node().(*ast.ReturnStmt)
+					if k >= len(r.Results) {
+						ok = false
+						continue
+					}
+					res := r.Results[k]
+					switch {
+					case !asErr:
+						ok = ok && c26Eval(h, res, atom) == t
+					case t == c26True:
+						ok = ok && core.IsNil(h.Info(), res)
+					default:
+						ok = ok && (varOf(h, res) == ev || isCallTo(h, res, "errors.New", "fmt.Errorf") != nil)
+					}
+				}
+			}
+			if ok && seen >= 2 {
+				return k, asErr
+			}
+		}
+	}
+	return -1, false
 }
